@@ -51,6 +51,7 @@ func init() {
 	mergeSpecials["services.*.build.additional_contexts"] = mergeToSequence
 	mergeSpecials["services.*.build.extra_hosts"] = mergeExtraHosts
 	mergeSpecials["services.*.build.labels"] = mergeToSequence
+	mergeSpecials["services.*.build.ssh"] = mergeSSH
 	mergeSpecials["services.*.command"] = override
 	mergeSpecials["services.*.depends_on"] = mergeDependsOn
 	mergeSpecials["services.*.deploy.labels"] = mergeToSequence
@@ -167,6 +168,46 @@ func mergeBuild(c any, o any, path tree.Path) (any, error) {
 		return nil, err
 	}
 	left, err := toBuild(o)
+	if err != nil {
+		return nil, err
+	}
+	return mergeMappings(right, left, path)
+}
+
+// mergeSSH merges build.ssh by key ID, whichever syntax (mapping or list of `id=path`) either side uses
+func mergeSSH(c any, o any, path tree.Path) (any, error) {
+	toMapping := func(c any) (map[string]any, error) {
+		switch v := c.(type) {
+		case map[string]any:
+			return v, nil
+		case []any:
+			converted := map[string]any{}
+			for _, e := range v {
+				s, ok := e.(string)
+				if !ok {
+					return nil, fmt.Errorf("%s must be a mapping or a list of strings", path)
+				}
+				id, key, ok := strings.Cut(s, "=")
+				switch {
+				case ok:
+					converted[id] = key
+				case id == "default":
+					converted[id] = nil
+				default:
+					return nil, fmt.Errorf("%s: invalid ssh key %q", path, s)
+				}
+			}
+			return converted, nil
+		case nil:
+			return map[string]any{}, nil
+		}
+		return nil, fmt.Errorf("%s must be a mapping or a list of strings", path)
+	}
+	right, err := toMapping(c)
+	if err != nil {
+		return nil, err
+	}
+	left, err := toMapping(o)
 	if err != nil {
 		return nil, err
 	}
